@@ -171,6 +171,53 @@ pub fn run_c06(ctx: &mut Ctx, _known: &Known) {
         for n in 0..=k + 1 {
             forms.push((format!("of(ident,{}) x{} [two-search entries]", n, k), vec![("G".into(), seq2.clone()), ("condition".into(), ys(&format!("of(G, {})", n)))], Box::new(move |v| t_of(n, v)), false));
         }
+        // (c'') operands that are numeric comparisons; false realised by a NON-numeric string, so a
+        //       rewrite of `not (x > n)` into `x <= n` shows
+        {
+            let cids: Vec<(String, Yaml)> = (0..k).map(|i| (format!("P{}", i), map1(&format!("f{}", i), ys(">5")))).collect();
+            let cdocs: Vec<Yaml> = vs.iter().map(|v| {
+                let mut m = Mapping::new();
+                for (i, t) in v.iter().enumerate() {
+                    match t {
+                        Tri::T => { m.insert(ys(&format!("f{}", i)), Yaml::Number(7u64.into())); }
+                        Tri::F => { m.insert(ys(&format!("f{}", i)), ys("big")); }
+                        Tri::M => {}
+                    }
+                }
+                Yaml::Mapping(m)
+            }).collect();
+            let mut cforms: Vec<(String, Vec<(String, Yaml)>, Box<dyn Fn(&[Tri]) -> Tri>)> = vec![];
+            let neg: Vec<String> = names.iter().map(|n| format!("not {}", n)).collect();
+            cforms.push((format!("or of negated comparisons x{}", k), with_cond(&cids, &neg.join(" or ")), Box::new(|v| t_or(&v.iter().map(|x| t_not(*x)).collect::<Vec<_>>()))));
+            cforms.push((format!("and of negated comparisons x{}", k), with_cond(&cids, &neg.join(" and ")), Box::new(|v| t_and(&v.iter().map(|x| t_not(*x)).collect::<Vec<_>>()))));
+            let nseq = Yaml::Sequence((0..k).map(|i| map1(&format!("not(f{})", i), ys(">5"))).collect());
+            cforms.push((format!("sequence of not(k) comparisons x{}", k), vec![("G".into(), nseq.clone()), ("condition".into(), ys("G"))], Box::new(|v| t_or(&v.iter().map(|x| t_not(*x)).collect::<Vec<_>>()))));
+            cforms.push((format!("of(ident,0) over comparisons x{}", k), vec![("G".into(), Yaml::Sequence((0..k).map(|i| map1(&format!("f{}", i), ys(">5"))).collect())), ("condition".into(), ys("of(G, 0)"))], Box::new(|v| t_of(0, v))));
+            for (name, det, table) in cforms {
+                let c = case(det, cdocs.clone(), masks.clone());
+                let (ex, parsed) = run_rule_case(ctx, &c, false);
+                let ry = rule_yaml(&c);
+                let p = match parsed {
+                    Some(p) if p.load == "ok" => p,
+                    _ => continue,
+                };
+                for mask in [0u64, 15] {
+                    if mask == 15 && ex.agree {
+                        continue;
+                    }
+                    let got = tri_of(&p, mask);
+                    for (j, v) in vs.iter().enumerate() {
+                        let want = table(v);
+                        ctx.nontrivial.insert(hash_str(&format!("{}{:?}", name, v)));
+                        let ok = if mask == 0 { got.get(j).map(|s| s.as_str()) == Some(want.name()) } else { (got.get(j).map(|s| s.as_str()) == Some("T")) == (want.name() == "T") };
+                        if !ok {
+                            ctx.violation("oracle", &format!("form `{}` operands {:?} (mask {}): engine gives {:?}, truth table gives {}", name, v, mask, got.get(j), want.name()), &ex, &ry, true);
+                            break;
+                        }
+                    }
+                }
+            }
+        }
         // (d) all/of over a key list (members: nested mappings on one object field)
         let members = Yaml::Sequence((0..k).map(|i| map1(&format!("f{}", i), ys("x"))).collect());
         forms.push((format!("all(key) x{}", k), vec![("G".into(), map1("all(o)", members.clone())), ("condition".into(), ys("G"))], Box::new(|v| t_and(v)), true));
@@ -488,6 +535,17 @@ pub fn run_c07(ctx: &mut Ctx, _known: &Known) {
             }
         }
     }
+    // quotes inside quotes: only ONE surrounding pair is removed
+    {
+        let q_hays: Vec<String> = vec!["a", "\"a\"", "'a'", "'", "\"", "*", "\"*", "''", "a\"", "\"a"].into_iter().map(|s| s.to_string()).collect();
+        let q_docs: Vec<Yaml> = q_hays.iter().map(|h| map1("f", ys(h))).collect();
+        for p in ["\"\"a\"\"", "'''", "\"\"*\"", "''a''", "\"'a'\"", "'\"a\"'", "\"\"\"\"", "'a''", "\"\"a\""] {
+            for pre in ["", "i"] {
+                string_case(ctx, vec![format!("{}{}", pre, p)], &q_docs, &q_hays, &masks);
+                string_case(ctx, vec![format!("{}{}", pre, p), "zq".to_string()], &q_docs, &q_hays, &masks);
+            }
+        }
+    }
     // lists of two (all pairs in thorough; a deterministic slice in quick), three and four
     let step = if ctx.tier == "thorough" { 1 } else { 7 };
     let mut idx = 0usize;
@@ -756,6 +814,40 @@ pub fn run_c09(ctx: &mut Ctx, _known: &Known) {
                 ctx.nontrivial.insert(hash_str(&format!("int{}{}{:?}", op, c, fv)));
                 if got != want {
                     ctx.violation("oracle", &format!("`int(f) {} {}` gives {} for f = {:?}, expected {}", op, c, got, fv, want), &ex, &ry, true);
+                }
+            }
+        }
+        // the literal written on the left: `c op int(f)` is the mirror image of `int(f) op' c`
+        for c in ["0", "1", "5", "9223372036854775807"] {
+            let cs = case(vec![("A".into(), map1("zz", ys("x"))), ("condition".into(), ys(&format!("{} {} int(f)", c, op)))], docs.clone(), masks.clone());
+            let (ex, parsed) = run_rule_case(ctx, &cs, false);
+            let ry = rule_yaml(&cs);
+            let p = match parsed {
+                Some(p) if p.load == "ok" => p,
+                _ => continue,
+            };
+            let res = tri_of(&p, 0);
+            let cv = NumV::I(c.parse::<i128>().unwrap());
+            for (j, fv) in field_vals.iter().enumerate() {
+                let casted: Option<i128> = match fv {
+                    Yaml::Bool(b) => Some(*b as i128),
+                    Yaml::Number(n) if n.is_u64() => { let u = n.as_u64().unwrap(); if u <= i64::MAX as u64 { Some(u as i128) } else { None } }
+                    Yaml::Number(n) if n.is_i64() => Some(n.as_i64().unwrap() as i128),
+                    Yaml::Number(n) => {
+                        let x = n.as_f64().unwrap().round();
+                        if x.is_finite() && x >= -9223372036854775808.0 && x < 9223372036854775808.0 { Some(x as i128) } else { None }
+                    }
+                    Yaml::String(s) => s.parse::<i64>().ok().map(|v| v as i128),
+                    _ => None,
+                };
+                let want = match casted {
+                    Some(v) => holds(op, cmp_exact(&cv, &NumV::I(v))),
+                    None => false,
+                };
+                ctx.nontrivial.insert(hash_str(&format!("revint{}{}{:?}", op, c, fv)));
+                if (res[j] == "T") != want {
+                    ctx.violation("oracle", &format!("`{} {} int(f)` gives {} for f = {:?}, expected {}", c, op, res[j], fv, want), &ex, &ry, true);
+                    break;
                 }
             }
         }
@@ -1093,6 +1185,68 @@ pub fn run_c10(ctx: &mut Ctx, _known: &Known) {
             ctx.nontrivial.insert(hash_str(&line));
             if ex.imp != want {
                 ctx.violation("oracle", &format!("find({:?}) on {} gives {} but the addressed value is {}", key, serde_yaml::to_string(d).unwrap_or_default().replace('\n', " "), ex.imp, want), &ex, &key, true);
+            }
+        }
+    }
+    // top-level fields whose NAME looks like a path: a path is still resolved step by step, in every
+    // document representation (YAML mapping through the protocol, serde_json value, hand-written Object)
+    {
+        let lit_docs: Vec<Yaml> = vec![
+            mapn(vec![("a.b".into(), ys("flat")), ("a".into(), map1("b", ys("deep")))]),
+            mapn(vec![("a.b".into(), ys("flat"))]),
+            mapn(vec![("a[0]".into(), ys("flat")), ("a".into(), Yaml::Sequence(vec![ys("zero")]))]),
+            mapn(vec![("a[1]".into(), ys("flat")), ("a".into(), Yaml::Sequence(vec![ys("zero")]))]),
+            mapn(vec![("a.b.c".into(), ys("flat")), ("a".into(), map1("b", map1("c", ys("deep"))))]),
+            mapn(vec![("a.b".into(), map1("c", ys("flat"))), ("a".into(), Yaml::Number(1u64.into()))]),
+        ];
+        let lit_paths: Vec<Vec<(String, Option<usize>)>> = vec![
+            vec![("a".into(), None), ("b".into(), None)],
+            vec![("a".into(), Some(0))],
+            vec![("a".into(), Some(1))],
+            vec![("a".into(), None), ("b".into(), None), ("c".into(), None)],
+            vec![("a".into(), None)],
+        ];
+        for d in &lit_docs {
+            for path in &lit_paths {
+                let key = render(path);
+                let want = match resolve(d, path) {
+                    Some(v) => value_repr(&v),
+                    None => "none".to_string(),
+                };
+                let line = format!("find {} {}", sx::doc_sx(d), sx::enc(&key));
+                let ex = ctx.exchange(&line);
+                ctx.check_agree(&ex, &key);
+                ctx.nontrivial.insert(hash_str(&line));
+                let mut got: Vec<(&str, String)> = vec![("YAML mapping", ex.imp.clone())];
+                if let Some(js) = crate::suites2::json_of_yaml(d) {
+                    let r = std::panic::catch_unwind(|| match tau_engine::Document::find(&js, &key) {
+                        Some(v) => crate::implside::value_sx(&v),
+                        None => "none".to_string(),
+                    });
+                    got.push(("serde_json value", r.unwrap_or_else(|_| "PANIC".into())));
+                }
+                for (name, g) in got {
+                    if g != want {
+                        ctx.violation("oracle", &format!("find({:?}) on {} as a {} gives {} but the addressed value is {}", key, serde_yaml::to_string(d).unwrap_or_default().replace('\n', " "), name, g, want), &ex, &key, true);
+                    }
+                }
+                // the same through a rule: dotted key and nested mapping
+                if path.iter().all(|(_, i)| i.is_none()) && path.len() >= 2 {
+                    let mut nested = ys("deep");
+                    for (n, _) in path.iter().rev() {
+                        nested = map1(n, nested);
+                    }
+                    for idv in [map1(&key, ys("deep")), nested.clone()] {
+                        let text = serde_yaml::to_string(&crate::implside::rule_value(&case(vec![("A".into(), idv), ("condition".into(), ys("A"))], vec![], vec![0]))).unwrap_or_default();
+                        if let (Ok(rule), Some(m), Some(js)) = (tau_engine::Rule::from_str(&text), d.as_mapping(), crate::suites2::json_of_yaml(d)) {
+                            let (a, b) = (rule.matches(m), rule.matches(&js));
+                            let expect = want == value_repr(&ys("deep"));
+                            if a != expect || b != expect {
+                                ctx.violation("oracle", &format!("rule on key {:?}: YAML mapping {} / serde_json {} but the addressed value {} 'deep'", key, a, b, if expect { "is" } else { "is not" }), &ex, &text, true);
+                            }
+                        }
+                    }
+                }
             }
         }
     }
